@@ -25,7 +25,7 @@ def build(vacuity=False):
     u = vxlib.Unit(NAME)
     u.default_props = ["C04"]
     with open(os.path.join(HERE, "prelude.rs")) as f:
-        u.raw(f.read())
+        u.raw(vxlib.with_includes(f.read()))
     if vacuity:
         u.raw(vxlib.VAC_PRELUDE)
     u.raw("verus! {\npub mod proto {\n    use super::*;\n")
